@@ -11,6 +11,7 @@ import (
 	"path/filepath"
 	"sort"
 	"strings"
+	"sync"
 
 	"golang.org/x/tools/go/packages"
 )
@@ -30,6 +31,8 @@ type World struct {
 	pkgs     map[string]*packages.Package // by path
 	funcs    map[string]*FuncInfo
 	byObj    map[*types.Func]*FuncInfo
+	ordMu    sync.Mutex
+	loopOrds map[*ast.FuncDecl]map[token.Pos]string
 	cs       *ContractSet
 	opaque   map[string]bool
 	aliases  map[string]string
